@@ -443,3 +443,29 @@ Section RL.
         unfold hop_string; cbn [h_port h_chan]. norm_app. reflexivity.
   Qed.
 End RL.
+
+(** ** C42 refuted: the two modules derive the denomination with different code (F5c) *)
+Definition differs (a : option bytes) (b : bytes) : bool :=
+  match a with Some x => negb (bytes_eqb x b) | None => false end.
+
+Lemma rl_refuted :
+  (* (a) a native coin with a hop-shaped name is escrowed under its own name and charged as ibc/... *)
+  (let token := mkDenom (B "foo/channel-5/bar") [] in
+   sdk_valid_denom (d_base token) = true /\
+   ics20_send token (B "transfer") (B "channel-0") = SEscrow (B "foo/channel-5/bar") /\
+   rl_send_denom (path token) = B "ibc/EA1484A3305E0DC601247D7D61EDBD3AA0DBDE1EE66AA17195A3DEDAEA949C60") /\
+  (* (b) base "transfer/channel-0" received: ICS-20 mints the hash of "transfer/channel-1/transfer/channel-0",
+         the rate limiter parses both pairs as hops and hashes the path with a trailing '/' *)
+  (differs (recv_action_denom sha256 (ics20_recv (B "transfer") (B "channel-3") (B "transfer") (B "channel-1") (B "transfer/channel-0")))
+           (rl_recv_denom (B "transfer") (B "channel-3") (B "transfer") (B "channel-1") (B "transfer/channel-0")) = true) /\
+  (* (c) source channel identifier not in ibc-go format: ICS-20 mints a new voucher, the rate limiter strips
+         the prefix and charges the inner denomination *)
+  (differs (recv_action_denom sha256 (ics20_recv (B "transfer") (B "chan-xyz12") (B "transfer") (B "channel-1") (B "transfer/chan-xyz12/uatom")))
+           (rl_recv_denom (B "transfer") (B "chan-xyz12") (B "transfer") (B "channel-1") (B "transfer/chan-xyz12/uatom")) = true /\
+   rl_recv_denom (B "transfer") (B "chan-xyz12") (B "transfer") (B "channel-1") (B "transfer/chan-xyz12/uatom") = B "uatom" /\
+   channel_identifier_validator (B "chan-xyz12") = true) /\
+  (* (d) a voucher whose first hop port is literally "ibc" (only if the transfer app is bound to that port) *)
+  (let token := mkDenom (B "uatom") [mkHop (B "ibc") (B "channel-0")] in
+   denom_safe token = true /\
+   negb (bytes_eqb (rl_send_denom (path token)) (send_action_denom (ics20_send token (B "ibc") (B "channel-0")))) = true).
+Proof. vm_compute. repeat split. Qed.
